@@ -308,7 +308,8 @@ def concretise(rec, seed, rep=0):
         fv = (loc["j"] - 1 + rng.uniform(0.02, 0.98)) / K
     else:
         a = rng.uniform(0.05, 0.95)
-        fh, fv = {1: (1e-4, a), 2: (1 - 1e-4, a), 3: (a, 1e-4), 4: (a, 1 - 1e-4)}[loc["i"]]
+        dep = (1e-4, 1e-6, 1e-9)[int(loc.get("j", 0))]
+        fh, fv = {1: (dep, a), 2: (1 - dep, a), 3: (a, dep), 4: (a, 1 - dep)}[loc["i"]]
     xf = lo.copy()
     xf[ih] = lo[ih] + fh * (hi[ih] - lo[ih])
     xf[iv] = lo[iv] + fv * (hi[iv] - lo[iv])
